@@ -4,6 +4,7 @@ import (
 	"bufio"
 	"bytes"
 	"crypto/rand"
+	"errors"
 	"fmt"
 	"net"
 	"os"
@@ -32,20 +33,26 @@ import (
 //	     ag = EnableAuthgrants, each a(bsent) | t | f; ca: the CA root is listed in CAFiles;
 //	     granted: an authorization grant for the client's key was added before it connects
 //	     -> h=<a real client completed the handshake over loopback UDP and the server accepted it>
-//	sni <match|nomatch|type7f-nomatch|type7f-match|empty>
+//	sni <match|nomatch|type7f-nomatch|type7f-match|empty|ipv4|ipv4-other|binary>
 //	     a server with ONE virtual host and no `*` block; the client asks for that name kind
-//	     -> h=<0|1> a=<an honest client is served afterwards>
+//	     -> h=<0|1> p=<virtual host whose certificate was presented: 0 | 1 | none> a=<an honest client is served afterwards>
 type cfgFiles struct {
 	dir                                   string
 	key, cert, inter, root, kem, otherKey string
 	srvKey                                *keys.X25519KeyPair
 	srvKEM                                *keys.KEMKeyPair
 	srvLeaf                               *certs.Certificate
+	// a second virtual host: pattern 10.0.0.*, certificate for the IPv4-typed name "10.0.0.7" (hopclient
+	// puts the TEXT of ServerIPv4 into the label) and for the raw name ff fe (not UTF-8)
+	ipKey  *keys.X25519KeyPair
+	ipLeaf *certs.Certificate
 }
 
 var theCfgFiles *cfgFiles
 
 const cfgHost = "srv.example"
+
+var sniKinds = []string{"match", "nomatch", "type7f-nomatch", "type7f-match", "empty", "ipv4", "ipv4-other", "binary"}
 
 func writeFile(path string, b []byte) {
 	if err := os.WriteFile(path, b, 0o600); err != nil {
@@ -65,6 +72,8 @@ func files() *cfgFiles {
 	f := &cfgFiles{dir: dir}
 	f.srvKey = keys.GenerateNewX25519KeyPair()
 	f.srvLeaf = p.Leaf(f.srvKey.Public, certs.RawStringName(cfgHost), certs.RawStringName(tnet.ServerName))
+	f.ipKey = keys.GenerateNewX25519KeyPair()
+	f.ipLeaf = p.Leaf(f.ipKey.Public, certs.Name{Type: certs.TypeIPv4Address, Label: []byte("10.0.0.7")}, certs.Name{Type: certs.TypeRaw, Label: []byte{0xff, 0xfe}})
 	kem, err := keys.GenerateKEMKeyPair(cfgRand{})
 	if err != nil {
 		panic(err)
@@ -140,7 +149,9 @@ func buildServer(mode, skip, dcv, ak, ag string, ca bool, namesOnly bool) (*hops
 			sc.CACerts = []*certs.Certificate{hs.PKI().Root}
 		}
 		if namesOnly {
-			sc.Names = []config.NameConfig{{Pattern: cfgHost, Key: f.srvKey, Certificate: f.srvLeaf, Intermediate: hs.PKI().Inter}}
+			sc.Names = []config.NameConfig{{Pattern: cfgHost, Key: f.srvKey, Certificate: f.srvLeaf, Intermediate: hs.PKI().Inter},
+				{Pattern: "10.0.0.*", Key: f.ipKey, Certificate: f.ipLeaf, Intermediate: hs.PKI().Inter},
+				{Pattern: "\xff*", Key: f.ipKey, Certificate: f.ipLeaf, Intermediate: hs.PKI().Inter}}
 		} else {
 			sc.Key, sc.Certificate, sc.Intermediate = f.srvKey, f.srvLeaf, hs.PKI().Inter
 		}
@@ -158,6 +169,15 @@ func buildServer(mode, skip, dcv, ak, ag string, ca bool, namesOnly bool) (*hops
 
 // connect runs one real client handshake; true when it completed and the server offered the connection
 func connect(srv *hopserver.HopServer, addr *net.UDPAddr, client string, name certs.Name, kp *keys.X25519KeyPair) bool {
+	ok, _ := connectP(srv, addr, client, name, kp)
+	return ok
+}
+
+// connectP also reports which virtual host's certificate the server presented: 0 (the named host), 1 (the
+// IPv4 / non-UTF-8 host) or "none" (no ServerAuth came)
+func connectP(srv *hopserver.HopServer, addr *net.UDPAddr, client string, name certs.Name, kp *keys.X25519KeyPair) (bool, string) {
+	presented := "none"
+	f := files()
 	p := hs.PKI()
 	var leaf, inter *certs.Certificate
 	switch client {
@@ -170,20 +190,38 @@ func connect(srv *hopserver.HopServer, addr *net.UDPAddr, client string, name ce
 	}
 	ccfg := transport.ClientConfig{Exchanger: kp, Leaf: leaf, Intermediate: inter, HSTimeout: 3 * time.Second,
 		Verify: transport.VerifyConfig{Store: p.Store, Name: name}}
+	// the additional callback only runs when the certificate verified; to see what was presented
+	// whatever the verdict, a second client skips verification and looks at the leaf
+	probe := ccfg
+	probe.Verify = transport.VerifyConfig{InsecureSkipVerify: true, Name: name, AddVerifyCallback: func(l *certs.Certificate) error {
+		switch l.PublicKey {
+		case f.srvKey.Public:
+			presented = "0"
+		case f.ipKey.Public:
+			presented = "1"
+		default:
+			presented = "other"
+		}
+		return errors.New("only looking")
+	}}
+	if pc, err := transport.Dial("udp", addr.String(), probe); err == nil {
+		pc.Handshake()
+		pc.Close()
+	}
 	c, err := transport.Dial("udp", addr.String(), ccfg)
 	if err != nil {
-		return false
+		return false, presented
 	}
 	defer c.Close()
 	if err := c.Handshake(); err != nil {
-		return false
+		return false, presented
 	}
 	h, err := srv.Server.AcceptTimeout(3 * time.Second)
 	if err != nil {
-		return false
+		return false, presented
 	}
 	h.Close()
-	return true
+	return true, presented
 }
 
 func okTri(s string) bool { return s == "a" || s == "t" || s == "f" }
@@ -248,6 +286,12 @@ func runCfgLine(f []string) string {
 			name = certs.Name{Type: 0x7f, Label: []byte(cfgHost)}
 		case "empty":
 			name = certs.Name{Type: certs.TypeRaw, Label: []byte{}}
+		case "ipv4":
+			name = certs.Name{Type: certs.TypeIPv4Address, Label: []byte("10.0.0.7")}
+		case "ipv4-other":
+			name = certs.Name{Type: certs.TypeIPv4Address, Label: []byte("10.9.0.7")}
+		case "binary":
+			name = certs.Name{Type: certs.TypeRaw, Label: []byte{0xff, 0xfe}}
 		default:
 			return "bad-op"
 		}
@@ -257,9 +301,9 @@ func runCfgLine(f []string) string {
 				return "setup-failed"
 			}
 			defer srv.Server.Close()
-			h := connect(srv, addr, "ok", name, keys.GenerateNewX25519KeyPair())
+			h, pres := connectP(srv, addr, "ok", name, keys.GenerateNewX25519KeyPair())
 			a := connect(srv, addr, "ok", certs.RawStringName(cfgHost), keys.GenerateNewX25519KeyPair())
-			return fmt.Sprintf("h=%d a=%d", b(h), b(a))
+			return fmt.Sprintf("h=%d p=%s a=%d", b(h), pres, b(a))
 		})
 	}
 	return "bad-op"
@@ -301,7 +345,7 @@ func genCfg(g *GenCtx) {
 			}
 		}
 	}
-	for _, k := range []string{"match", "nomatch", "type7f-nomatch", "type7f-match", "empty"} {
+	for _, k := range sniKinds {
 		g.Op("sni %s", k)
 	}
 	g.Op("cfg toml x a a a 0 ok 0")
